@@ -44,3 +44,28 @@ let tsfmt_of_string (s : string) : tsfmt =
     else go (i + 1) (TLit (n_of_int (Char.code s.[i])) :: acc) in
   go 0 []
 let string_of_bytes (b : bytes) : string = String.init (List.length b) (fun i -> Char.chr (int_of_n (List.nth b i)))
+
+(* UTF-8 <-> Unicode scalar values (the LogSpec layer works on chars) *)
+let ustr_of_hex (h : string) : n list =
+  let b = if h = "-" then [||] else Array.init (String.length h / 2) (fun i -> hexdigit h.[2*i] * 16 + hexdigit h.[2*i+1]) in
+  let n = Array.length b in
+  let rec go i acc =
+    if i >= n then List.rev acc else
+    let c = b.(i) in
+    if c < 0x80 then go (i + 1) (n_of_int c :: acc)
+    else if c < 0xE0 then go (i + 2) (n_of_int (((c land 0x1F) lsl 6) lor (b.(i+1) land 0x3F)) :: acc)
+    else if c < 0xF0 then go (i + 3) (n_of_int (((c land 0x0F) lsl 12) lor ((b.(i+1) land 0x3F) lsl 6) lor (b.(i+2) land 0x3F)) :: acc)
+    else go (i + 4) (n_of_int (((c land 0x07) lsl 18) lor ((b.(i+1) land 0x3F) lsl 12) lor ((b.(i+2) land 0x3F) lsl 6) lor (b.(i+3) land 0x3F)) :: acc) in
+  go 0 []
+let hex_of_ustr (s : n list) : string =
+  if s = [] then "-" else
+  let buf = Buffer.create 16 in
+  List.iter (fun x ->
+      let c = int_of_n x in
+      let add v = Buffer.add_string buf (Printf.sprintf "%02x" v) in
+      if c < 0x80 then add c
+      else if c < 0x800 then (add (0xC0 lor (c lsr 6)); add (0x80 lor (c land 0x3F)))
+      else if c < 0x10000 then (add (0xE0 lor (c lsr 12)); add (0x80 lor ((c lsr 6) land 0x3F)); add (0x80 lor (c land 0x3F)))
+      else (add (0xF0 lor (c lsr 18)); add (0x80 lor ((c lsr 12) land 0x3F)); add (0x80 lor ((c lsr 6) land 0x3F)); add (0x80 lor (c land 0x3F)))) s;
+  Buffer.contents buf
+let opt_ustr (s : string) : n list option = if s = "~" then None else Some (ustr_of_hex s)
